@@ -94,7 +94,8 @@ fn git_word(r: &mut Rng) -> String {
             }
             s.replace(' ', "_")
         }
-        11 => (*r.pick(&["no-rmal", "NO-Rmal", "no-normal", "nonormal", "no-no-bold", "nobright", "no-red", "no-", "no", "non", "no-b",
+        11 => (*r.pick(&["brightred", "BRIGHTBLUE", "brightnormal", "bright-1", "bright0", "bright255", "bright#fff", "bright", "brightbright", "brightblack",
+        "no-rmal", "NO-Rmal", "no-normal", "nonormal", "no-no-bold", "nobright", "no-red", "no-", "no", "non", "no-b",
         "+5", "-0", "-2", "256", "1000", "0255", "0007", "00000000000000000012", "0256", "00", "007", "0x10", "1.0", "٣", "１", "+0", "-01", "99999999999999999999"])).to_string(),
         12 => {
             // single-edit mutation of a valid word
